@@ -85,6 +85,7 @@ func registerAll() {
 	reg("I4", "removal keeps order: no Remove of an element list or array data slab moves an element to another position by an element store (swap-remove)", ruleI4)
 	reg("L19", "CBOR head width table: GetUintCBORSize agrees with the encoder's head widths (1/2/3/5/9 bytes at 23, 2^8-1, 2^16-1, 2^32-1) on every interval of uint64 cut by the constants it compares with", ruleL19)
 	reg("L20", "type-info references are resolved for every kind of inlined extra data: wherever the reference-resolving decoder is built, every callee handed a TypeInfoDecoder receives it (not the plain decoder)", ruleL20)
+	reg("G6", "arrival-independent outcome: no return inside a launcher's receive loop depends on the content of an individual worker result (which error is returned and what was applied before it must not depend on which worker finished first)", ruleG6)
 	reg("I2", "iterator cursor advance: every exit of a Next/next method that hands out an element is preceded on all paths by a write of the iterator's cursor state (own field, nested iterator, or delegation to its own Next)", ruleI2)
 	reg("I3", "range validation: the range iterator constructors reject start > end and bounds beyond the count", ruleI3)
 
@@ -140,7 +141,7 @@ func registerAll() {
 	}
 	propTable["C16"] = &PropSpec{
 		ID:          "C16",
-		Rules:       []string{"G1", "G2", "G3", "G4", "G5", "D4"},
+		Rules:       []string{"G1", "G2", "G3", "G4", "G5", "G6", "D4"},
 		Explanation: "every goroutine body's transitive may-effect set has no write to storage, container, slab or global state and no write through captured variables; maps read by workers are written by the launcher only after a receive loop counted to the number of queued jobs; workers defer wg.Done, wg.Add(n) dominates a loop launching n workers, close(results) is deferred after wg.Wait, job/result channels are buffered; after a non-deferred put no use of the pooled object or an alias is reachable (up to re-definition), with a deferred put no alias escapes; objects are Reset before Pool.Put; no package variable can be written after init through any API function. A pooled object is put at most once per Get (no non-deferred put beside a deferred one); the result channel has the capacity of the job queue whenever workers send unconditionally.",
 		NotDecided:  "sequential equality of the results of a concurrent run (only through C04), races inside client callbacks, retention of pooled objects by callees.",
 		Technique:   "may-effect summaries over the call graph, dominance by drain-loop exits, alias taint for pooled objects",
